@@ -1,4 +1,3 @@
-(* The single place that names the generated command-line tables.  Until tools/translate.py emits them into
-   Gen/Generated.v they live in Gen/GeneratedCli.v (written by tools/props/c18.py from tools/translate_cli.py
-   at the start of every run); to switch, change this one line. *)
-From CA Require Export Gen.GeneratedCli.
+(* The single place that names the generated command-line tables: tools/translate.py emits them into
+   Gen/Generated.v on every run (tools/translate_cli.py reads usage_help.md and driver.rs). *)
+From CA Require Export Gen.Generated.
